@@ -229,6 +229,20 @@ class Provenance:
             cn = call_name(e) or ""
             if cn in PATH_PASSTHROUGH or cn in PATH_SPLIT:
                 return self.roots(e.args[0], f, depth + 1, seen) if e.args else {"unknown:noargs"}
+            if isinstance(e.func, ast.Attribute) and e.func.attr in ("values", "keys", "items") and is_self_attr(e.func.value) and f.cls is not None:
+                # provenance of the keys / values stored in a dict attribute of the class
+                out: Set[str] = set()
+                for k in self.model.mro(f.cls):
+                    for g in k.methods.values():
+                        for n in walk_no_nested(g.node):
+                            if isinstance(n, ast.Assign):
+                                for t in n.targets:
+                                    if isinstance(t, ast.Subscript) and is_self_attr(t.value, e.func.value.attr):
+                                        if e.func.attr in ("values", "items"):
+                                            out |= self.roots(n.value, g, depth + 1, seen)
+                                        if e.func.attr in ("keys", "items"):
+                                            out |= self.roots(t.slice, g, depth + 1, seen)
+                return out or {f"unknown:self.{e.func.value.attr}.{e.func.attr}()"}
             if isinstance(e.func, ast.Attribute) and e.func.attr in ("replace", "rstrip", "lstrip", "strip", "format", "lower", "upper",
                                                                      "removesuffix", "removeprefix", "get", "with_suffix", "joinpath"):
                 if e.func.attr == "get" and dotted(e.func.value) and (dotted(e.func.value) or "").endswith("dst_file_to_src_file"):
@@ -251,6 +265,16 @@ class Provenance:
         if isinstance(e, ast.Attribute):
             if isinstance(e.value, ast.Name) and e.value.id == "self" and f.cls is not None:
                 out = set()
+                # a dict attribute: what reaches a consumer that iterates it are its keys
+                for k in self.model.mro(f.cls):
+                    for g in k.methods.values():
+                        for n in walk_no_nested(g.node):
+                            if isinstance(n, ast.Assign):
+                                for t in n.targets:
+                                    if isinstance(t, ast.Subscript) and is_self_attr(t.value, e.attr):
+                                        out |= self.roots(t.slice, g, depth + 1, seen)
+                if out:
+                    return out
                 for k in self.model.mro(f.cls) + self.model.subclasses(f.cls):
                     for g in k.methods.values():
                         for n in walk_no_nested(g.node):
